@@ -1,7 +1,7 @@
 From FJ Require Import Lib.Base.
 (* C02: the assembled image equals the denotation of the macro-free source. *)
 From FJ Require Import Spec.MachineSpec Model.Ast Spec.DenoteSpec Model.DenoteCheck Model.Layout.
-From FJ Require Import Proofs.DenoteProps Proofs.LayoutProps.
+From FJ Require Import Proofs.DenoteProps Proofs.LayoutProps Proofs.LayoutChains.
 Local Open Scope string_scope.
 
 (* 1. the certified checker decides the property for one program on the implementation's own output
@@ -82,10 +82,31 @@ Theorem C02_aux_not_on_io_partial :
 Proof. exact assemble_aux_not_on_io. Qed.
 Print Assumptions C02_aux_not_on_io_partial.
 
-(* the full statements (Proofs/LayoutProps.v: C02_sound_statement, C02_rejects_statement) are NOT proved yet: missing is
-   exactly the hypothesis of C02_sound_modulo_chains_partial (the sharing-table invariant of insert_wflip_ops giving a
-   stored chain per wflip statement, and aux_ok / address >= 2w of its auxiliary ops);
-   the second is a corollary of the first *)
+(* ... the hypothesis of C02_sound_modulo_chains_partial holds (Proofs/LayoutChains.v: the sharing-table invariant of
+   insert_wflip_ops): in the image of every program the model assembles, every wflip statement has a stored chain that
+   starts at the statement's own address, flips exactly flip_bits A V in order, ends with a jump to R, and whose ops
+   after the first are auxiliary: aux_ok (in a pad hole or in the wflip area of a segment, overlapping no op / wflip /
+   reserve), not on the input-cell op, not below 2w.  A table entry made in an earlier segment stays a valid chain
+   (emitted words never change), so reusing it from a later segment is covered. *)
+Theorem C02_wflip_chain_invariant :
+  forall ww ver P segs words lbls,
+    assemble_model ww ver true P = Ok (segs, words, lbls) ->
+    lexical_labels P = true -> reserves_nonneg ww P lbls = true ->
+    forall L, place ww (lookup lbls) P 0 = Some L -> Forall (wflip_chain_ok ww (image_of segs words) L lbls) L.
+Proof. exact assemble_chains. Qed.
+Print Assumptions C02_wflip_chain_invariant.
+
+(* THE theorem: for every macro-free program the model of the current assembler (strict_range = true) assembles, the
+   image is the program's denotation.  Guards = the recorded findings F17 (lexical_labels), F18 (reserves_nonneg). *)
+Theorem C02_sound :
+  forall ww ver P segs words lbls,
+    assemble_model ww ver true P = Ok (segs, words, lbls) ->
+    lexical_labels P = true -> reserves_nonneg ww P lbls = true ->
+    Denotes ww (image_of segs words) P lbls.
+Proof. exact assemble_sound. Qed.
+Print Assumptions C02_sound.
+
+(* the general statements of Proofs/LayoutProps.v (any strict flag, C02_guards): the second is a corollary of the first *)
 Theorem C02_rejects_from_sound_partial : C02_sound_statement -> C02_rejects_statement.
 Proof. exact C02_rejects_from_sound. Qed.
 Print Assumptions C02_rejects_from_sound_partial.
@@ -105,6 +126,29 @@ Example C02_nonvacuous :
     assemble_model 4 3 true prog_ok = Ok (segs, words, lbls)
     /\ C02_guards 4 3 true prog_ok lbls = true
     /\ Denotes 4 (image_of segs words) prog_ok lbls.
+Proof.
+  eexists. eexists. eexists. split; [vm_compute; reflexivity|]. split; [vm_compute; reflexivity|].
+  apply check_denotes_sound. vm_compute. reflexivity.
+Qed.
+
+(* two benign programs on which an earlier, over-strict formalisation of the spec was false (the code is right, the
+   assembler's output is the same as below): `wflip A, 0, R` with a negative A (value 0: the address is not looked at;
+   the clause demanded 0 <= A unconditionally) and a zero-size reserve placed, in another segment, on the middle word
+   of an auxiliary chain op (an empty interval overlaps nothing; `occupies` counted it).  Spec/DenoteSpec.v now says
+   `V = 0 \/ 0 <= A` and `occupies` needs pl_addr < pl_next. *)
+Definition prog_null_wflip : list stmt := [SWordFlip (EInt (-16)) (EInt 0) (EInt 0) ps].
+Definition prog_empty_reserve : list stmt :=
+  [SWordFlip (ELbl "t") (EInt 3) (EInt 0) ps; SLabel "t" ps; SFlipJump (EInt 0) (EInt 0) ps;
+   SSegment (EInt 80) ps; SReserve (EInt 0) ps].
+Example C02_null_wflip_negative_address :
+  exists segs words lbls,
+    assemble_model 4 0 true prog_null_wflip = Ok (segs, words, lbls) /\ Denotes 4 (image_of segs words) prog_null_wflip lbls.
+Proof. eexists. eexists. eexists. split; [vm_compute; reflexivity|]. apply check_denotes_sound. vm_compute. reflexivity. Qed.
+Example C02_empty_reserve_inside_aux_op :
+  exists segs words lbls,
+    assemble_model 4 0 true prog_empty_reserve = Ok (segs, words, lbls)
+    /\ lookup lbls ":wflips:0" = Some 64%Z
+    /\ Denotes 4 (image_of segs words) prog_empty_reserve lbls.
 Proof.
   eexists. eexists. eexists. split; [vm_compute; reflexivity|]. split; [vm_compute; reflexivity|].
   apply check_denotes_sound. vm_compute. reflexivity.
